@@ -124,6 +124,15 @@ CHECKS = {
              "and pool sizes 2-12; refused operations (no elasticity) must report an error and leave every worker running.",
         note="D7 found here and fixed. Worker 0 of the pool is never suspended individually.",
         ref="DESIGN.md section 2, C19"),
+    "C05": dict(
+        technique="runtime monitoring: per-group spawned/exited counters read immediately after every life-cycle call, suspended-interval "
+                  "flag checked inside task bodies, per-incarnation configuration probes, in-process call watchdog; TSan/ASan extra",
+        text="Exploration: per run 40 processes x 3-6 runtime incarnations with random policy/worker count/stack size, random histories of "
+             "submit / external submitter / wait / suspend+submit+resume / finalize (inside, outside, from a task) / stop; hook delays on "
+             "the activity counter, the wait predicate and the worker sleep window.",
+        note="Life-cycle calls come from the main OS thread; nothing is submitted from outside after finalize(); ASan runs use one "
+             "incarnation (tool false alarm on remapped task stacks).",
+        ref="DESIGN.md section 2, C05"),
 }
 
 NOT_YET = "not claimed yet: harness under construction in this session (see DESIGN.md section 2)"
